@@ -12,61 +12,61 @@ def C(technique, text, note, category="exploration"):
 T_ORACLE = "Trusts the independent oracles in cmv/oracles (self-tested at the start of every run; a failing self-test makes the run INCONCLUSIVE). "
 CHECKS = {
     "C01": C("runtime monitor: icontract postcondition on check_and_fix_contrast (fires on every internal call) + API-boundary oracle (CSS read-back, WCAG ratio) over stratified pair workload",
-             "Every make_readable / bulk / check_and_fix_contrast execution of a stratified, threshold-hugging workload (12 configurations, all spellings, translucent text, 148x148 keyword lattice in thorough) is judged by an independent WCAG+CSS oracle. Held on N observed executions; the 2^48 pair space is sampled per class.",
+             "Every make_readable / bulk / check_and_fix_contrast execution of a stratified, threshold-hugging workload (12 configurations, all spellings, translucent text, 148x148 keyword lattice in thorough) is judged by an independent WCAG+CSS oracle. Also judged: verdicts under show/save_report, hash-equal int/float/bool tuple aliases, one ColorPair object reused across configurations. Held on N observed executions; the 2^48 pair space is sampled per class.",
              T_ORACLE + "Pair classes and counts per class are in the evidence."),
     "C02": C("runtime monitor: keep / never-lower relation judged by WCAG oracle at the API boundary over threshold-straddling workload",
-             "Observed executions only: pairs one 8-bit step either side of each threshold, text=bg, mid-tone backgrounds on both sides; already-passing pairs must come back unchanged with success, all others must not lose contrast.",
+             "Observed executions only: pairs one 8-bit step either side of each threshold, text=bg, mid-tone backgrounds on both sides; already-passing pairs must come back unchanged with success, all others must not lose contrast; the same translucent string over many backgrounds in one process; a composite outside C13's bound counts as a violation.",
              T_ORACLE + "Translucent originals use the library's composite, accepted only within C13's bound."),
     "C03": C("runtime monitor: independent exhaustive scan of the lightness line (own OKLCH, CIEDE2000, WCAG) decides the obligation; API result judged against it",
-             "For each sampled pair an independent scan decides whether a barely-perceptible witness exists; on witness pairs success in modes 0/1/2 and dE<=2.0 are demanded. Stratified over background lightness x text side x settings. One mechanism is a recorded known finding (search direction chosen from background only).",
+             "For each sampled pair an independent scan decides whether a barely-perceptible witness exists; on witness pairs success in modes 0/1/2 and dE<=2.0 are demanded. Stratified over background lightness x text side x settings. The obligation is also judged through the bulk API (entry after its twin at the other text size). One mechanism is a recorded known finding (search direction chosen from background only).",
              T_ORACLE + "A coarse scan can only miss obligations. Known finding classified from the input alone."),
     "C04": C("runtime monitor: API-level dE bound + direct calls of the search routines with arbitrary tolerances + recorded step chain (attribute replacement of the multi-phase search) checked against a trace invariant",
-             "Strict-mode results, direct calls of the three search routines with schedules the library never uses, and every multi-phase step inside mode-1/2 runs are measured with an independent CIEDE2000; chain lengths are in the evidence.",
+             "Strict-mode results, direct calls of the three search routines with schedules the library never uses, and every multi-phase step inside mode-1/2 runs are measured with an independent CIEDE2000; chain lengths are in the evidence. In-process mode-1/2 history precedes strict calls; routines are also called with caller-owned lists overwritten in place; cm-colors --mode 0 is run on generated sheets and every card's dE judged.",
              T_ORACLE + "0.05 slack = agreement C11 grants. Routine names are auxiliary: absent attribute => sub-check skipped and counted."),
     "C05": C("runtime monitor: exhaustive enumeration of all 2^24 luminances and all grey pairs under an exact-decimal WCAG oracle + contracts on luminance/ratio during optimiser runs + adjacent-float label checks",
-             "Luminance is enumerated completely (exhaustive: true for that sub-space) in both tiers; ratio on all 65,536 grey pairs, every colour vs black/white (thorough: all), random and near-threshold pairs; labels on each threshold float and its 5 neighbours each way.",
+             "Luminance is enumerated completely (exhaustive: true for that sub-space) in both tiers; ratio on all 65,536 grey pairs, every colour vs black/white (thorough: all), random and near-threshold pairs; labels on each threshold float and its 5 neighbours each way; bulk status after failed fixes and in mixed-shape lists; reused list arguments.",
              T_ORACLE + "Ratio over 2^48 pairs is sampled."),
     "C06": C("runtime monitor: exhaustive format_color x {hex,rgb,hsl,tuple} over 2^24 colours (thorough) with double read-back (library parser + CSS reference, tinycss2 third opinion) + API-level format mapping on passing and optimiser paths",
-             "Thorough enumerates all 16,777,216 colours x 4 formats and 3.1M API calls; quick a 2^18 stratified subset. Each output must be the right kind and read back as exactly the colour under both parsers.",
+             "Thorough enumerates all 16,777,216 colours x 4 formats and 3.1M API calls; quick a 2^18 stratified subset. Each output must be the right kind and read back as exactly the colour under both parsers; tuple/list subclasses as inputs; one shard with warnings escalated to errors.",
              T_ORACLE + "Float fast path falls back to exact rationals near ties."),
     "C07": C("runtime monitor: differential against an exact-rational CSS Color 3 reader over exhaustive hex / keyword spaces and grammar-generated functional strings",
-             "All #rrggbb (thorough) / 2^20 (quick), all #rgb x 3, 148 keywords x 6, 400k-1.6M generated rgb()/rgba()/hsl()/hsla() strings with whitespace/case/number-format variants and random backgrounds; equivalent spellings must parse identically.",
+             "All #rrggbb (thorough) / 2^20 (quick), all #rgb x 3, 148 keywords x 6, 400k-1.6M generated rgb()/rgba()/hsl()/hsla() strings with whitespace/case/number-format variants and random backgrounds; equivalent spellings must parse identically; the same translucent string over a sequence of backgrounds; whitespace look-alikes back to back.",
              T_ORACLE + "Infinite functional families are sampled; only CSS Color 3 comma syntax with in-range components."),
     "C08": C("runtime monitor: black-box observation of the real command (stdout counters, report cards, written file) judged by a reference stylesheet reader + WCAG + the Python API; in-process runs with a recording ColorPair plus real subprocess runs",
-             "Generated stylesheets (variables: chained/fallback/shared, !important, repeats, nesting to depth 4, colours in :root/html) x mode x premium x default-bg; P1-P6 checked per rule. Known findings (shared custom property across backgrounds, undefined var with literal fallback, error node in re-serialised rule) are mechanism-keyed.",
+             "Generated stylesheets (variables: chained/fallback/shared, !important, repeats, nesting to depth 4, colours in :root/html) x mode x premium x default-bg; P1-P6 checked per rule. Directory runs with cross-file custom-property references, translucent text, comments inside values, the same pair in other notations. Known findings (shared custom property across backgrounds, undefined var with literal fallback, error node in re-serialised rule) are mechanism-keyed.",
              T_ORACLE + "tinycss2's tokenizer is trusted as the reading of the sheet; selectors generated unique."),
     "C09": C("runtime monitor: SHA-256 of inputs + directory listing + sys.addaudithook write-open log (in-process) + strace -f file-syscall log (subprocess) + canonical structural diff of output vs input",
-             "Every run is watched for writes: only sibling _cm.css files and the report may be created; output must equal input in canonical token structure except adjusted colour values. One known finding (error node in a re-serialised rule loses the file).",
+             "Every run is watched for writes: only sibling _cm.css files and the report may be created; output must equal input in canonical token structure except adjusted colour values. Single-file targets named *_cm.css / multi-dot / spaced / hidden / non-ASCII, symlink and absolute-path arguments, runs from a parent directory. One known finding (error node in a re-serialised rule loses the file).",
              T_ORACLE + "Canonical form built on tinycss2's tokenizer."),
     "C10": C("runtime monitor: exhaustive forward/round-trip over 2^24 colours (thorough) against Ottosson's published OKLab definition, grid+random inverse, invalid-input fuzz of the safe variants, contracts on the safe variants during optimiser runs",
-             "Forward conversion, ranges and exact round trip on all 16,777,216 colours (thorough; 2^20 in quick); inverse on a dense grid, random and gamut-boundary triples within one unit of the oracle's clip-and-round; safe variants on finite-out-of-range and non-finite triples.",
+             "Forward conversion, ranges and exact round trip on all 16,777,216 colours (thorough; 2^20 in quick); inverse on a dense grid, random and gamut-boundary triples within one unit of the oracle's clip-and-round; safe variants on finite-out-of-range and non-finite triples, and on valid colours right after the invalid triples they could be confused with.",
              T_ORACLE + "'L=0 black' demanded on the achromatic axis only (definition + clipping gives (20,0,0) for (0,0.3,0deg))."),
     "C11": C("runtime monitor: exhaustive Lab over 2^24 colours (thorough) against a first-principles oracle; CIEDE2000 against the 34 published pairs (Lab fed through attribute replacement) and a set-valued independent implementation; dE contract live during optimiser runs",
-             "Lab on every colour, dE on unit-step neighbours of every 4th colour (12.6M, thorough), random / near-neutral / hue-wrap / blue-region pairs; symmetric, finite, zero iff identical.",
+             "Lab on every colour, dE on unit-step neighbours of every 4th colour (12.6M, thorough), random / near-neutral / hue-wrap / blue-region pairs; symmetric, finite, zero iff identical; reused list arguments overwritten in place.",
              T_ORACLE + "At the hue-difference discontinuity both branches are admissible when a 0.03 Lab disagreement could flip the branch (measured necessary)."),
     "C12": C("runtime monitor: differential of make_readable_bulk against fresh single-pair calls + WCAG label oracle + permutation / removal metamorphic relations",
-             "Lists of 0-12 mixed 2-/3-element entries with duplicates and invalid entries at random positions under all 6 (mode, very_readable): order, per-entry equality with the single-pair API, status label of the read-back colour, invalid entries unchanged, permutation and removal invariance.",
+             "Lists of 0-12 mixed 2-/3-element entries with duplicates and invalid entries at random positions under all 6 (mode, very_readable): order, per-entry equality with the single-pair API, status label of the read-back colour, invalid entries unchanged, permutation and removal invariance; twins at the other text size, hash-equal alias entries, the same entry object twice, one-shot iterables with and without save_report.",
              T_ORACLE + "The single-pair API is the reference for the colour."),
     "C13": C("runtime monitor: exact-rational source-over blend oracle on ColorPair composites, labels and fixes judged on the composite",
-             "(fg, alpha, bg) triples in rgba()/hsla()/RGBA tuple/list spellings incl. alpha at and next to 0 and 1 and translucent backgrounds; composite within 1.5 of the exact blend; is_readable and make_readable judged on that composite.",
+             "(fg, alpha, bg) triples in rgba()/hsla()/RGBA tuple/list spellings incl. alpha at and next to 0 and 1 and translucent backgrounds; composite within 1.5 of the exact blend; is_readable and make_readable judged on that composite; grammar-spelled (percentage / fractional hsl) foregrounds where the 1.5 bound is tight (measured 1.498); alpha-carrying rgb() and informal forms; hash-equal alias backgrounds.",
              T_ORACLE),
     "C14": C("runtime monitor: never-raises invariant around Color/ColorPair/bulk under grammar-based near-miss fuzzing",
-             "150k (quick) / 3M (thorough) hostile strings and sequences; any escaping exception, a valid object without a proper rgb, an invalid one without a message, or an invalid pair that is not (None, False)/'Not Readable' is a violation; bulk isolation of the invalid entry.",
+             "150k (quick) / 3M (thorough) hostile strings and sequences; any escaping exception, a valid object without a proper rgb, an invalid one without a message, or an invalid pair that is not (None, False)/'Not Readable' is a violation; bulk isolation of the invalid entry, also next to an equal-comparing retyped twin; huge integers; '#' followed by signs/blanks/prefixes.",
              "Structural oracle only. Nested sequences and non-sequence types are outside the statement."),
     "C15": C("runtime monitor: equality of one probe across fresh interpreters (hash seeds), generated call histories, bulk positions, repeated calls and 8 concurrent threads with sys.monitoring LINE-callback yield injection; object/module fingerprints",
-             "Probe results must be identical in all observations; histories are built around the probe (shared text / background / pair, other spellings, bulk, in-process CLI, show/save_report). Thread schedules are sampled (distinct call/return orders counted).",
+             "Probe results must be identical in all observations; histories are built around the probe (shared text / background / pair, other spellings, bulk, in-process CLI, show/save_report). Hash-equal and str()-equal aliases, early-ending CLI runs with --default-bg, translucent backgrounds; fresh interpreters whose first calls come from 16 threads at once. Thread schedules are sampled (distinct call/return orders counted).",
              "The library elsewhere/else-when is the reference (differential). Module-state drift is evidence, not a verdict."),
     "C16": C("runtime monitor: cross-configuration relations on recorded results (mode 1 => mode 2 identical; very_readable success => ordinary success)",
-             "All 12 configurations per pair on pairs needing several default-mode steps, near-threshold and mid-tone pairs; premises (mode-1 successes, very_readable successes) are counted so the relations are not vacuous.",
+             "All 12 configurations per pair on pairs needing several default-mode steps, near-threshold and mid-tone pairs; premises (mode-1 successes, very_readable successes) are counted so the relations are not vacuous; configuration order shuffled per pair; saturating pairs (fix near black/white); one ColorPair reused with its large attribute switched.",
              "Differential: the library under the other setting is the reference."),
     "C17": C("runtime monitor: I/O window (sys.stdout/stderr replacement, fd 1/2 redirection, sys.addaudithook write-open / mutation log, cwd listing) around API calls",
-             "Default path must be silent and eventless for every spelling and outcome; with show/save_report the result must equal the plain result, never raise, and only write the documented report in the cwd.",
+             "Default path must be silent and eventless for every spelling and outcome; with show/save_report the result must equal the plain result, never raise, and only write the documented report in the cwd - which changes between calls; leniently accepted and invalid inputs; stdout that is None or write/flush-only; zip() input to bulk with a report.",
              "Audit events cover Python-level file creation; bytecode caching disabled in the harness."),
     "C18": C("runtime monitor over enumerated faults: every fault kind x placement injected into generated trees; directory-run bytes vs single-file-run bytes, rerun idempotence, stderr reporting; all real subprocesses",
-             "Fault enumeration: {non-UTF-8, directory named *.css, dangling symlink, unserialisable sheet, empty file, orphan _cm.css, stale output, none} x {first, middle, last} x {root, sub-directory} in trees with cross-file custom-property references.",
+             "Fault enumeration: {non-UTF-8, directory named *.css, dangling symlink, unserialisable sheet, empty file, orphan _cm.css, stale output, none} x {first, middle, last} x {root, sub-directory} in trees with cross-file custom-property references, shared pairs in per-file notations, multi-dot and spaced names; plus blocked-output (fails after analysis). Every created file must be <name>_cm.css beside an input; the second run must leave the tree byte-identical.",
              "The command on one file alone in a pristine copy is the reference. Permission faults not generated (root ignores mode bits).", category="fault_enumeration"),
     "C19": C("runtime monitor: DOM-skeleton equality (html.parser) between reports for hostile strings and a benign marker, per user-controlled slot, plus end-to-end CLI / bulk / single runs",
-             "Hostile strings over markup metacharacters in every slot of generate_report / to_html / to_html_bulk, and end to end through attribute-selector strings, file names and colour values: same skeleton, text/style shows the string verbatim.",
+             "Hostile strings over markup metacharacters in every slot of generate_report / to_html / to_html_bulk, and end to end through attribute-selector strings, file names and colour values: same skeleton, text/style shows the string verbatim; --default-bg as a route; Unicode compatibility forms of the metacharacters.",
              "html.parser tokenisation stands for a browser's on escaped documents; level badges are not user text."),
 }
 
